@@ -402,3 +402,24 @@ def misc_family():
     log(f'[replay] MC_Misc: {s["counters"].get("validator_cases", 0)} validator classes, {s["counters"].get("hostile_cases", 0)} hostile ledgers, {s["findings"]} deviations')
     _family_cache[key] = r
     return r
+
+
+# --------------------------------------------------------------------------------------------
+# MC_Format (C17)
+
+def format_family(tier):
+    key = 'format_' + tier
+    if key in _family_cache:
+        return _family_cache[key]
+    cfgname = 'MC_Format_sparse.cfg' if tier == 'quick' else 'MC_Format_dense.cfg'
+    m = tlc('MC_Format', os.path.join('cfg', cfgname), workers=4, timeout=900)
+    m['states'] = max(m['states'], 1)
+    m['transitions'] = max(m['transitions'], 1)
+    wd = workdir(key)
+    out = os.path.join(wd, 'findings.ndjson')
+    s = harness('replay_format', ['--in', m['out'], '--out', out, '--pdf-every', '1'])
+    r = {'name': key, 'tlc': m, 'summary': s, 'findings': read_ndjson(out), 'obs': None}
+    log(f'[replay] MC_Format: {s["counters"].get("values", 0)} values ({s["counters"].get("pdf_values", 0)} through the PDF), '
+        f'{s["counters"].get("labels", 0)} labels, {s["findings"]} deviations')
+    _family_cache[key] = r
+    return r
